@@ -117,7 +117,13 @@ func run(j job, g int32, yseed uint64) (out []byte, err error) {
 		if err = w.Close(); err != nil {
 			return nil, err
 		}
-		return sink.Buf, nil
+		out = append([]byte(nil), sink.Buf...)
+		// a redundant Close (defer w.Close() after an explicit one is a common idiom) must
+		// not touch anything another instance owns; its result does not matter here
+		if j.Seed%3 == 0 {
+			w.Close()
+		}
+		return out, nil
 	default:
 		src := mon.NewSource(j.Stream)
 		src.Frag = "short"
